@@ -762,6 +762,10 @@ mod os {
             if read_cnt == 0 {
                 Ok(())
             } else if read_cnt == 4 {
+                // The child could not exec and is exiting.  Reap it here:
+                // drop() does not wait for detached processes, which would
+                // leave a zombie behind.
+                self.os_wait().ok();
                 let error_code: u32 = error_buf[0] as u32
                     | (error_buf[1] as u32) << 8
                     | (error_buf[2] as u32) << 16
